@@ -297,6 +297,8 @@ def valid_document(doc):
 
 # --------------------------------------------------------------------------- C15: structural mutants
 
+VOCABULARY = ["entries", "data", "type", "sub:type", "bins", "values", "name", "w", "v", "center", "atleast", "nanflow", "low"]
+
 JUNK = {"str": "x", "list": [], "dict": {}, "null": None, "numlist": [1.5], "strdict": {"x": "y"}}
 
 
@@ -354,6 +356,13 @@ def struct_mutants(doc):
         m = copy.deepcopy(doc)
         get_path(m, path)["bogus"] = 1
         yield "add-key %s" % where, m
+        # a key that is legal elsewhere in the format is just as foreign here
+        allowed = set(g["req"]) | set(g["opt"])
+        for extra in VOCABULARY:
+            if extra not in allowed:
+                m = copy.deepcopy(doc)
+                get_path(m, path)[extra] = copy.deepcopy(get_path(doc, ["data"])) if extra == "data" else 1.0
+                yield "add-known-key:%s %s" % (extra, where), m
         for key in g["opt"]:
             for how, val in (("num", 3.5), ("list", []), ("dict", {})):
                 m = copy.deepcopy(doc)
@@ -419,6 +428,12 @@ def _mut_d(doc, path, d, key, where):
                     m = copy.deepcopy(doc)
                     get_path(m, path + [i])["bogus"] = 1
                     yield "elem-add-key:%s[%d] %s" % (key, i, where), m
+                    have = set(val[i]) if isinstance(val[i], dict) else set()
+                    for extra in ("entries", "sub:type", "name", "w", "center", "atleast", "type"):
+                        if extra not in have:
+                            m = copy.deepcopy(doc)
+                            get_path(m, path + [i])[extra] = 1.0
+                            yield "elem-add-known-key:%s[%d]:%s %s" % (key, i, extra, where), m
                     if e[0] == "obj":
                         for kk, dd in e[1].items():
                             if dd[0] == "num":
